@@ -312,7 +312,8 @@ def np_form(af, steady=False, style=None):
     bufs = {}
 
     def form(p, t):
-        p = np.asarray(p, dtype=float)
+        p_raw = p
+        p = np.asarray(p, dtype=complex).real.astype(float)
         A = A0 + t * At
         for i, E in enumerate(Ap):
             if i < len(p):
@@ -328,6 +329,10 @@ def np_form(af, steady=False, style=None):
             A = getattr(scipy.sparse, style["sparse"] + "_matrix")(A)
         if style.get("src") == "scalar":
             b = float(b[0])
+        A, b, c = cast_dtype(A, style.get("dt_op")) if style.get("dt_op") else A, cast_dtype(b, style.get("dt_src")) if style.get("dt_src") else b, \
+            cast_dtype(c, style.get("dt_ic")) if style.get("dt_ic") else c
+        if style.get("ic_raw_param"):
+            c = p_raw                   # the parameter object itself is the initial condition (as in Heat1D)
         return (A, b, c)
     if steady:
         return lambda p: form(p, 0.0)[:2]
@@ -346,8 +351,29 @@ def mk_solver_args(cfg, rec):
     return kw
 
 
-def aslist(g):
-    return None if g is None else np.array(g, dtype=float)
+def aslist(g, dt=None):
+    if g is None:
+        return None
+    return cast_dtype(np.array(g, dtype=float), dt)
+
+
+DTYPES = ["int64", "int32", "bool", "float32", "float64", "list", "complex"]
+
+
+def cast_dtype(v, dt):
+    """the same VALUES declared with another dtype / as a Python list (exactly representable: checked)"""
+    if dt is None:
+        return v
+    v = np.asarray(v, dtype=float)
+    if dt == "list":
+        return v.tolist()
+    w = v.astype(dt)
+    assert np.array_equal(np.asarray(w, dtype=complex), np.asarray(v, dtype=complex)), "values not representable as %s" % dt
+    return w
+
+
+def cast_par(cfg, x):
+    return cast_dtype(np.array(x, dtype=float), (cfg.get("style") or {}).get("dt_par"))
 
 
 def asgrid_obs(cfg):
@@ -355,6 +381,8 @@ def asgrid_obs(cfg):
     g = cfg["gobs"]
     if g is None:
         return None
+    if cfg.get("gobs_dtype") == "list":
+        return list(g)
     return np.array(g, dtype=cfg.get("gobs_dtype") or float)
 
 
@@ -362,13 +390,13 @@ def mk_td(cuqi, cfg, rec, form=None):
     tobs = cfg["tobs"]
     if isinstance(tobs, list):
         tobs = np.array(tobs, dtype=float) if cfg.get("tobs_as_array", True) else list(tobs)
-    return cuqi.pde.TimeDependentLinearPDE(form or np_form(cfg["af"], style=cfg.get("style")), np.array(cfg["times"], dtype=float), time_obs=tobs,
-                                           method=cfg["method"], grid_sol=aslist(cfg["gsol"]), grid_obs=asgrid_obs(cfg),
+    return cuqi.pde.TimeDependentLinearPDE(form or np_form(cfg["af"], style=cfg.get("style")), aslist(cfg["times"], cfg.get("times_dtype")), time_obs=tobs,
+                                           method=cfg["method"], grid_sol=aslist(cfg["gsol"], cfg.get("gsol_dtype")), grid_obs=asgrid_obs(cfg),
                                            observation_map=pymap(cfg["omap"]), **mk_solver_args(cfg, rec))
 
 
 def mk_ss(cuqi, cfg, rec, form=None):
-    return cuqi.pde.SteadyStateLinearPDE(form or np_form(cfg["af"], steady=True, style=cfg.get("style")), grid_sol=aslist(cfg["gsol"]),
+    return cuqi.pde.SteadyStateLinearPDE(form or np_form(cfg["af"], steady=True, style=cfg.get("style")), grid_sol=aslist(cfg["gsol"], cfg.get("gsol_dtype")),
                                          grid_obs=asgrid_obs(cfg), observation_map=pymap(cfg["omap"]),
                                          **mk_solver_args(cfg, rec))
 
@@ -395,14 +423,17 @@ def drive_td_direct(cuqi, cfg, p, form=None, assemble=True):
             return {"stage": "init", "err": r[1], "rec": rec}
         pde = r[1]
         if assemble:
-            pde.assemble(np.array(p, dtype=float))
+            pde.assemble(cast_par(cfg, p))
         r = outcome(pde.solve)
         if r[0] == "err":
             return {"stage": "solve", "err": r[1], "rec": rec}
-        u, info = r[1]
-        u = np.array(u, dtype=float)
-        o = outcome(lambda: pde.observe(u))
-        return {"stage": "run", "u": u, "info": info_list(info), "obs": o, "ninterp": len(rec.i2), "rec": rec,
+        u_raw, info = r[1]
+        u = np.array(np.real(u_raw), dtype=float)
+        o = outcome(lambda: pde.observe(u_raw))
+        if o[0] == "ok":
+            o = ("ok", np.real(o[1]))
+        return {"stage": "run", "u": u, "udtype": np.asarray(u_raw).dtype.kind, "uimag": float(np.max(np.abs(np.imag(u_raw)))) if np.size(u_raw) else 0.0,
+                "info": info_list(info), "obs": o, "ninterp": len(rec.i2), "rec": rec,
                 "time_obs": np.asarray(pde._time_obs, dtype=float).tolist(), "grids_equal": bool(pde.grids_equal)}
 
 
@@ -411,13 +442,15 @@ def drive_ss_direct(cuqi, cfg, p, form=None, assemble=True):
     with Patches(rec):
         pde = mk_ss(cuqi, cfg, rec, form)
         if assemble:
-            pde.assemble(np.array(p, dtype=float))
+            pde.assemble(cast_par(cfg, p))
         r = outcome(pde.solve)
         if r[0] == "err":
             return {"stage": "solve", "err": r[1], "rec": rec}
-        sol, info = r[1]
-        sol = np.array(sol, dtype=float)
-        o = outcome(lambda: pde.observe(sol))
+        sol_raw, info = r[1]
+        sol = np.array(np.real(sol_raw), dtype=float)
+        o = outcome(lambda: pde.observe(sol_raw))
+        if o[0] == "ok":
+            o = ("ok", np.real(o[1]))
         return {"stage": "run", "sol": sol, "info": info_list(info), "obs": o, "ninterp": len(rec.i1), "rec": rec,
                 "grids_equal": bool(pde.grids_equal)}
 
@@ -1118,6 +1151,28 @@ def spd_af(rng, n, npar, steady):
             "Cp": [[1 if i % npar == k else 0 for k in range(npar)] for i in range(n)]}
 
 
+# ---- DTYPE: the same integer / 0-1 valued data declared as int64, int32, bool, float32, float64, list, complex ----
+def dtype_af(rng, n, npar, binary, steady):
+    """integer-valued (binary: 0/1 valued) time-independent data, so that every component can be declared with any dtype"""
+    if binary:
+        A0 = [[1 if (abs(i - j) == 1 or (steady and i == j)) else 0 for j in range(n)] for i in range(n)]
+        if steady:
+            A0 = [[1 if j >= i else 0 for j in range(n)] for i in range(n)]           # unit upper triangular: regular, 0/1 valued
+        b0 = [rng.choice([0, 1]) for _ in range(n)]
+        c0 = [1 if n // 3 <= i < n - 1 else 0 for i in range(n)]                      # ((grid > a) & (grid < b)) style indicator
+        Bp = [[0] * npar for _ in range(n)]
+        Cp = [[0] * npar for _ in range(n)]
+    else:
+        lap = [[(-2 if i == j else 1 if abs(i - j) == 1 else 0) for j in range(n)] for i in range(n)]
+        A0 = [[(6 if (steady and i == j) else 0) + lap[i][j] + (rng.choice([0, 1, -1]) if rng.random() < 0.2 else 0) for j in range(n)] for i in range(n)]
+        b0 = [rng.randint(-3, 3) for _ in range(n)]
+        c0 = [rng.randint(-4, 4) for _ in range(n)]
+        Bp = [[rng.choice([0, 1, -1]) for _ in range(npar)] for _ in range(n)]
+        Cp = [[1 if i % npar == k else 0 for k in range(npar)] for i in range(n)]
+    Z = [[0] * n for _ in range(n)]
+    return {"A0": A0, "At": Z, "Ap": [], "b0": b0, "bt": [0] * n, "Bp": Bp, "c0": c0, "ct": [0] * n, "Cp": Cp}
+
+
 # ---- grid scale x grid perturbation (same length, different positions / same values in another array or dtype) ----
 SCALES = [-40, -30, -20, -10, 0, 10, 20]
 PERTS = [("rel", 10, "all"), ("rel", 20, "all"), ("rel", 30, "all"), ("rel", 20, "one"), ("rel", 30, "one"), ("abs", 30, "all"), ("abs", 40, "all"),
@@ -1296,8 +1351,11 @@ def case_td_direct(cuqi, cfg, p, q, cell, trivial=False):
     tol = td_tol(cfg, p)
     rec = ob["rec"]
     ok_args = interp_args_ok(rec) and solver_args_ok(cfg, rec)
-    expr = "check_td %s %s %s && %s" % (td_cfg_term(cfg, q, rec, tol), qcv(p), td_obs_term(ob), cbool(ok_args))
+    dtype_ok, dmsg = result_dtype_ok(ob)
+    expr = "check_td %s %s %s && %s && %s" % (td_cfg_term(cfg, q, rec, tol), qcv(p), td_obs_term(ob), cbool(ok_args), cbool(dtype_ok))
     f = oracle_td(cfg, p, ob, q)
+    if f is None and not dtype_ok:
+        f = (dmsg, "TimeDependentLinearPDE.solve")
     if f is None and not ok_args:
         f = ("solver/interpolation called with other arguments than documented: %s %s" % (
             [c["kw"] for c in rec.solver_calls][:2], [e["ctor_extra"] for e in rec.i1 + rec.i2][:2]), "LinearPDE.external-call-arguments")
@@ -1306,10 +1364,26 @@ def case_td_direct(cuqi, cfg, p, q, cell, trivial=False):
                 impl_fail=f[0] if f else None, signature=f[1] if f else "")
 
 
+def result_dtype_ok(ob):
+    """DECISION: the array of stored levels must be of a floating (or complex with zero imaginary part) dtype whenever the
+    recurrence leaves the integers; an integer/bool array is acceptable only if every level is integer valued"""
+    if ob["stage"] != "run":
+        return True, ""
+    u = ob["u"]
+    integral = bool(np.all(u == np.round(u)))
+    if ob["udtype"] not in "fc" and not integral:
+        return False, "stored levels have dtype kind %r although they are not integers" % ob["udtype"]
+    if ob["udtype"] not in "fc" and u.shape[1] > 1:
+        return False, "stored levels have the non-floating dtype kind %r: later levels of the Euler recurrence cannot be represented (%s)" % (ob["udtype"], u[:, -1].tolist())
+    if ob.get("uimag", 0.0) != 0.0:
+        return False, "stored levels carry a non-zero imaginary part for real data"
+    return True, ""
+
+
 def model_output(r):
     if r[0] == "err":
         return r
-    return ("ok", np.asarray(r[1], dtype=float))
+    return ("ok", np.asarray(np.real(r[1]), dtype=float))
 
 
 def cases_td_forward(cuqi, cfg, plist, a, d, q, cell):
@@ -1334,11 +1408,11 @@ def cases_td_forward(cuqi, cfg, plist, a, d, q, cell):
                 xbuf[:] = x
                 xin = xbuf
             else:
-                xin = np.array(x, dtype=float)
+                xin = cast_par(cfg, x)
             raw = outcome(lambda: model.forward(xin))
             o = model_output(raw)
             alive.append((len(out), raw[1] if raw[0] == "ok" and isinstance(raw[1], np.ndarray) else None,
-                          np.array(raw[1], copy=True) if raw[0] == "ok" and isinstance(raw[1], np.ndarray) else None, xin.copy(), np.array(x, dtype=float)))
+                          np.array(raw[1], copy=True) if raw[0] == "ok" and isinstance(raw[1], np.ndarray) else None, np.array(xin, copy=True), cast_par(cfg, x)))
             pf = [a * v + d for v in x]
             tol = td_tol(cfg, pf)
             ok_args = interp_args_ok(rec) and solver_args_ok(cfg, rec)
@@ -1377,7 +1451,7 @@ def keep_alive(out, alive):
         if obj is not None and not (obj.shape == copy.shape and np.array_equal(obj, copy, equal_nan=True)):
             out[pos].impl_fail = "the array returned by forward call %d was changed by a later call: %s -> %s" % (pos, copy.ravel()[:6].tolist(), obj.ravel()[:6].tolist())
             out[pos].signature = "PDEModel._forward_func"
-        elif not np.array_equal(xin, xcopy):
+        elif not np.array_equal(np.asarray(xin), np.asarray(xcopy)):
             out[pos].impl_fail = "forward call %d altered its input array: %s -> %s" % (pos, xcopy.tolist(), xin.tolist())
             out[pos].signature = "PDEModel._forward_func"
 
@@ -1435,11 +1509,11 @@ def cases_ss_forward(cuqi, cfg, plist, a, d, cell):
                 xbuf[:] = x
                 xin = xbuf
             else:
-                xin = np.array(x, dtype=float)
+                xin = cast_par(cfg, x)
             raw = outcome(lambda: model.forward(xin))
             o = model_output(raw)
             own = raw[0] == "ok" and isinstance(raw[1], np.ndarray) and cfg["solver"] != "real_buffer"
-            alive.append((len(out), raw[1] if own else None, np.array(raw[1], copy=True) if own else None, xin.copy(), np.array(x, dtype=float)))
+            alive.append((len(out), raw[1] if own else None, np.array(raw[1], copy=True) if own else None, np.array(xin, copy=True), cast_par(cfg, x)))
             pf = [a * v + d for v in x]
             tol = cfg.get("tol") or ("0" if cfg["solver"].startswith("fake") else "12")
             ok_args = interp_args_ok(rec) and solver_args_ok(cfg, rec)
@@ -2060,6 +2134,73 @@ def run(ctx):
                     cases.add(cell, "ss_forward", lambda: cases_ss_forward(cuqi, cfg, plist, 1, 0, cell), cfg=cfg, plist=plist, a=1, d=0)
                 else:
                     cases.add(cell, "td_forward", lambda: cases_td_forward(cuqi, cfg, plist, 1, 0, q, cell), cfg=cfg, plist=plist, a=1, d=0)
+
+    # ---- 5f. DTYPE of every input: operator / source / initial condition / parameter / grids / time steps as int64, int32, bool, float32,
+    #          float64, Python list, complex (zero imaginary part); one component at a time and all together; result dtype = DECISION ---------
+    for _ in range(reps if not ctx.thorough else 2):
+        for comp in ["dt_ic", "dt_src", "dt_op", "dt_par", "ic_raw_param", "all"]:
+            for dt_ in DTYPES:
+                for method, sk in [("forward_euler", "default"), ("backward_euler", "default"), ("backward_euler", "real_tuple"), ("backward_euler", "fake")]:
+                    binary = dt_ == "bool"
+                    n = rng.randint(3, 5)
+                    npar = n if comp == "ic_raw_param" else 2
+                    for attempt in range(30):
+                        af = dtype_af(rng, n, npar, binary, False)
+                        if comp == "ic_raw_param":
+                            af["c0"], af["Cp"] = [0] * n, [[1 if i == k else 0 for k in range(n)] for i in range(n)]
+                            af["Bp"] = [[0] * n for _ in range(n)]
+                        style = {"ic_raw_param": True, "dt_par": dt_} if comp == "ic_raw_param" else \
+                            {"dt_ic": dt_, "dt_src": dt_, "dt_op": dt_, "dt_par": dt_} if comp == "all" else {comp: dt_}
+                        cfg = {"af": af, "style": style, "times": gen_times(rng, rng.choice(["uniform", "nonuniform"]), rng.randint(2, 5)), "method": method,
+                               "solver": sk, "tag": 6, "gsol": None, "gobs": None, "tobs": "final", "omap": ["none"]}
+                        p = [rng.choice([0, 1]) for _ in range(npar)] if binary else [rng.randint(-3, 3) for _ in range(npar)]
+                        if sk == "fake" or method == "forward_euler" or well_conditioned(cfg, p):
+                            break
+                    cell = "td/dtype/%s/%s/%s/%s" % (comp, dt_, method, sk)
+                    if sk == "real_tuple":
+                        plist = [p, [1 - v for v in p] if binary else [v + 1 for v in p]]
+                        cases.add(cell, "td_forward", lambda: cases_td_forward(cuqi, cfg, plist, 1, 0, q, cell), cfg=cfg, plist=plist, a=1, d=0)
+                    else:
+                        cases.add(cell, "td_direct", lambda: case_td_direct(cuqi, cfg, p, q, cell), cfg=cfg, p=p)
+        for comp in ["dt_src", "dt_op", "dt_par", "all"]:
+            for dt_ in DTYPES:
+                for sk in ["default", "fake"]:
+                    binary = dt_ == "bool"
+                    n, npar = rng.randint(3, 5), 2
+                    for attempt in range(30):
+                        style = {"dt_src": dt_, "dt_op": dt_, "dt_par": dt_} if comp == "all" else {comp: dt_}
+                        cfg = {"steady": True, "af": dtype_af(rng, n, npar, binary, True), "style": style, "solver": sk, "tag": 0, "gsol": None, "gobs": None,
+                               "omap": ["none"]}
+                        plist = [[rng.choice([0, 1]) for _ in range(npar)] if binary else [rng.randint(-3, 3) for _ in range(npar)] for _ in range(2)]
+                        if sk == "fake" or all(well_conditioned(cfg, x) for x in plist):
+                            break
+                    cell = "ss/dtype/%s/%s/%s" % (comp, dt_, sk)
+                    cases.add(cell, "ss_direct", lambda: case_ss_direct(cuqi, cfg, plist[0], cell), cfg=cfg, p=plist[0], assembled=True)
+                    if sk == "default":
+                        cases.add(cell, "ss_forward", lambda: cases_ss_forward(cuqi, cfg, plist, 1, 0, cell + "/forward"), cfg=cfg, plist=plist, a=1, d=0)
+        for gdt in ["int64", "int32", "float32", "list"]:
+            for which in ["gsol_dtype", "gobs_dtype", "times_dtype"]:
+                for kind in ["td", "ss"]:
+                    if kind == "ss" and which == "times_dtype":
+                        continue
+                    n, nt = rng.randint(4, 6), rng.randint(4, 6)
+                    gs = [float(i) for i in range(n)]
+                    rel = rng.choice(["equal", "sub", "off"])
+                    go = list(gs) if rel == "equal" else gs[1:-1] if rel == "sub" else [g + 0.5 for g in gs[:-1]]
+                    if which == "gobs_dtype" and rel == "off":
+                        go = gs[::2]
+                    if kind == "td":
+                        times = [float(k) for k in range(nt)] if which == "times_dtype" else gen_times(rng, "nonuniform", nt)
+                        cfg = {"af": dtype_af(rng, n, 2, False, False), "times": times, "method": rng.choice(["forward_euler", "backward_euler"]), "solver": "fake",
+                               "tag": 0, "gsol": gs, "gobs": go, which: gdt, "tobs": rng.choice(["final", "all"]), "omap": ["none"]}
+                        p = [rng.randint(-3, 3) for _ in range(2)]
+                        cell = "td/dtype/%s/%s" % (which, gdt)
+                        cases.add(cell, "td_direct", lambda: case_td_direct(cuqi, cfg, p, q, cell), cfg=cfg, p=p)
+                    else:
+                        cfg = {"steady": True, "af": dtype_af(rng, n, 2, False, True), "solver": "fake", "tag": 0, "gsol": gs, "gobs": go, which: gdt, "omap": ["none"]}
+                        p = [rng.randint(-3, 3) for _ in range(2)]
+                        cell = "ss/dtype/%s/%s" % (which, gdt)
+                        cases.add(cell, "ss_direct", lambda: case_ss_direct(cuqi, cfg, p, cell), cfg=cfg, p=p, assembled=True)
 
     # ---- 5e. solutions with two space axes (solution.ndim = 3): restriction route vs the refusing interpolation route -------------------
     for _ in range(reps):
